@@ -85,19 +85,16 @@ def read_groundwater_table(
 
                 # Linear interpolation between dates
 
-                # create daily depths for each simulation day
-                # fill unspecified days with NaN
-                z_gw = pd.Series(
-                    np.nan * np.ones(len(ClockStruct.time_span)), index=ClockStruct.time_span
+                # interpolate in time between the observations (which may lie
+                # outside the simulation period), hold the first/last observed
+                # depth before/after them, then keep the simulation days only
+                obs = pd.Series(
+                    np.array(df["Depth(mm)"].values, dtype=float),
+                    index=pd.DatetimeIndex(df.Date),
                 )
-
-                for row in range(len(df)):
-                    date = df.Date.iloc[row]
-                    depth = df["Depth(mm)"].iloc[row]
-                    z_gw.loc[date] = depth
-
-                # Interpolate daily groundwater depths
-                z_gw = z_gw.interpolate()
+                all_days = ClockStruct.time_span.union(obs.index)
+                z_gw = obs.reindex(all_days).interpolate(method="time").ffill().bfill()
+                z_gw = z_gw.reindex(ClockStruct.time_span)
 
         # assign values to Paramstruct object
         ParamStruct.z_gw = z_gw.values
